@@ -736,3 +736,223 @@ func runHostileAgent(args []string) {
 	ioutil.WriteFile(statusFile, []byte("OK\n"), 0644)
 	_ = context.Background
 }
+
+// ---------------------------------------------------------------------------
+// C09 against the built binary: which connection the pool uses for a host, across
+// reconnects and the different ways a WebSocket connection can end (server.go).
+//
+//   vipsim binconn <vipnode binary> <trace> <status>
+
+type binHost struct {
+	name string
+	ws   *rawWS
+	mu   *sync.Mutex
+	log  *[]J
+	done chan struct{}
+}
+
+func (h *binHost) serve(names *Names) {
+	defer close(h.done)
+	for {
+		h.ws.c.SetReadDeadline(time.Now().Add(30 * time.Second))
+		_, b, err := h.ws.c.ReadMessage()
+		if err != nil {
+			return
+		}
+		var m map[string]json.RawMessage
+		if json.Unmarshal(b, &m) != nil {
+			continue
+		}
+		method := strings.Trim(string(m["method"]), `"`)
+		if method == "" {
+			// a reply to one of our own requests
+			h.mu.Lock()
+			*h.log = append(*h.log, J{"reply": string(b), "conn": h.name})
+			h.mu.Unlock()
+			continue
+		}
+		var params []string
+		json.Unmarshal(m["params"], &params)
+		arg := ""
+		if len(params) > 0 {
+			arg = names.abs(params[0])
+		}
+		h.mu.Lock()
+		*h.log = append(*h.log, J{"conn": h.name, "method": method, "arg": arg})
+		h.mu.Unlock()
+		h.ws.send([]byte(`{"jsonrpc":"2.0","id":` + string(m["id"]) + `,"result":null}`))
+	}
+}
+
+// emptyState: the projection of a process whose store cannot be read from outside
+func emptyState(calls []J) J {
+	return J{"node": J{}, "peers": J{}, "bal": J{}, "link": J{}, "acct": J{}, "anodes": J{}, "paid": J{}, "dep": J{}, "numremotes": -1, "snap": true,
+		"stats": J{"credit": 0}, "calls": calls}
+}
+
+func runBinConn(args []string) {
+	if len(args) != 3 {
+		fatal("usage: vipsim binconn vipnode-binary trace status")
+	}
+	statusFile = args[2]
+	tr, err := newTrace(args[1])
+	if err != nil {
+		fatal("%v", err)
+	}
+	names := newNames(9)
+	for _, n := range []string{"h1", "c1"} {
+		names.get(n)
+	}
+	type step struct {
+		op, conn, ident string
+		full            bool
+		num             int
+	}
+	scenarios := map[string][]step{
+		"close-registered": {{"Open", "k1", "", false, 0}, {"Connect", "k1", "h1", true, 0}, {"Open", "k2", "", false, 0}, {"Connect", "k2", "c1", false, 0},
+			{"Peer", "k2", "c1", false, 1}, {"Close", "k1", "", false, 0}, {"Peer", "k2", "c1", false, 1}},
+		"reconnect-close-old": {{"Open", "k1", "", false, 0}, {"Connect", "k1", "h1", true, 0}, {"Open", "k3", "", false, 0}, {"Connect", "k3", "h1", true, 0},
+			{"Close", "k1", "", false, 0}, {"Open", "k2", "", false, 0}, {"Connect", "k2", "c1", false, 0}, {"Peer", "k2", "c1", false, 1}},
+		"close-then-reconnect": {{"Open", "k1", "", false, 0}, {"Connect", "k1", "h1", true, 0}, {"Close", "k1", "", false, 0}, {"Open", "k3", "", false, 0},
+			{"Connect", "k3", "h1", true, 0}, {"Open", "k2", "", false, 0}, {"Connect", "k2", "c1", false, 0}, {"Peer", "k2", "c1", false, 1},
+			{"Close", "k3", "", false, 0}, {"Peer", "k2", "c1", false, 1}},
+	}
+	for _, scn := range []string{"close-registered", "reconnect-close-old", "close-then-reconnect"} {
+		for _, closemode := range []string{"tcp", "frame1000", "frame1001", "frame4000", "frame1000-noreply"} {
+			p := startPool(args[0])
+			var mu sync.Mutex
+			var calls []J
+			conns := map[string]*binHost{}
+			nonce := time.Now().UnixNano()
+			tr.emit(J{"op": "Reset", "a": J{"op": "Reset", "pool": true, "nodes": []string{"h1", "c1"}, "accts": []string{}, "unit": "1", "price": 1, "interval": 60,
+				"hasmin": false, "minbal": 0, "maxhosts": 0, "fee": 0, "haswmin": false, "wmin": 0, "scenario": scn, "closemode": closemode},
+				"r": okRes(nil), "now": 0, "st": emptyState([]J{})})
+			k := 0
+			for _, st := range scenarios[scn] {
+				k++
+				a := J{"op": st.op, "conn": st.conn}
+				var r J
+				switch st.op {
+				case "Open":
+					ws, err := dialRaw(p.addr)
+					if err != nil {
+						fatal("dial: %v", err)
+					}
+					h := &binHost{name: st.conn, ws: ws, mu: &mu, log: &calls, done: make(chan struct{})}
+					conns[st.conn] = h
+					go h.serve(names)
+					a["mode"], a["host"], a["addr"] = "ack", "127.0.0.1", "127.0.0.1:0"
+					r = okRes(nil)
+				case "Close":
+					h := conns[st.conn]
+					switch closemode {
+					case "tcp":
+						h.ws.c.UnderlyingConn().Close()
+					case "frame1000", "frame1001", "frame4000":
+						code := map[string]int{"frame1000": 1000, "frame1001": 1001, "frame4000": 4000}[closemode]
+						h.ws.mu.Lock()
+						h.ws.c.WriteControl(gorillaws.CloseMessage, gorillaws.FormatCloseMessage(code, "bye"), time.Now().Add(time.Second))
+						h.ws.mu.Unlock()
+						select {
+						case <-h.done:
+						case <-time.After(time.Second):
+						}
+						h.ws.c.Close()
+					case "frame1000-noreply":
+						h.ws.mu.Lock()
+						h.ws.c.WriteControl(gorillaws.CloseMessage, gorillaws.FormatCloseMessage(1000, ""), time.Now().Add(time.Second))
+						h.ws.mu.Unlock()
+						h.ws.c.UnderlyingConn().Close()
+					}
+					time.Sleep(300 * time.Millisecond)
+					r = okRes(nil)
+				case "Connect", "Peer":
+					h := conns[st.conn]
+					id := names.get(st.ident)
+					nonce++
+					var method string
+					var param interface{}
+					if st.op == "Connect" {
+						method = "vipnode_connect"
+						param = pool.ConnectRequest{NodeInfo: ethnode.UserAgent{Kind: ethnode.Geth, IsFullNode: st.full}, NodeURI: ""}
+						a["full"], a["kind"], a["payout"], a["uri"] = st.full, "geth", "", ""
+					} else {
+						method = "vipnode_peer"
+						param = pool.PeerRequest{Num: st.num}
+						a["num"], a["kind"] = st.num, ""
+					}
+					a["ident"], a["alter"], a["nonce"] = st.ident, "none", k
+					sig, _ := request.Sign(id.key, method, id.nodeID, nonce, param)
+					params, _ := json.Marshal([]interface{}{sig, id.nodeID, nonce, param})
+					reqID := 100 + k
+					mu.Lock()
+					calls = nil
+					mu.Unlock()
+					h.ws.send([]byte(fmt.Sprintf(`{"jsonrpc":"2.0","id":%d,"method":%q,"params":%s}`, reqID, method, params)))
+					// wait for the reply (collected by the serve loop)
+					var reply map[string]json.RawMessage
+					deadline := time.Now().Add(8 * time.Second)
+					for time.Now().Before(deadline) && reply == nil {
+						mu.Lock()
+						for _, c := range calls {
+							if s, ok := c["reply"].(string); ok && c["conn"] == st.conn {
+								var m map[string]json.RawMessage
+								if json.Unmarshal([]byte(s), &m) == nil && string(m["id"]) == strconv.Itoa(reqID) {
+									reply = m
+								}
+							}
+						}
+						mu.Unlock()
+						time.Sleep(5 * time.Millisecond)
+					}
+					switch {
+					case reply == nil:
+						r = J{"ok": false, "err": "noreply", "val": []interface{}{}}
+					case reply["error"] != nil:
+						var e struct {
+							Message string `json:"message"`
+						}
+						json.Unmarshal(reply["error"], &e)
+						cls := "other: " + e.Message
+						switch {
+						case strings.HasPrefix(e.Message, "no host nodes available"), strings.HasPrefix(e.Message, "no available host nodes"):
+							cls = "nohosts"
+						case strings.HasPrefix(e.Message, `failed to call "vipnode_whitelist"`):
+							cls = "hosterrors"
+						}
+						r = J{"ok": false, "err": cls, "val": []interface{}{}}
+					case st.op == "Peer":
+						var pr pool.PeerResponse
+						json.Unmarshal(reply["result"], &pr)
+						hosts := []string{}
+						for _, n := range pr.Peers {
+							hosts = append(hosts, names.abs(string(n.ID)))
+						}
+						r = okRes(sorted(hosts))
+					default:
+						r = okRes(nil)
+					}
+				}
+				mu.Lock()
+				var cs []J
+				for _, c := range calls {
+					if _, isReply := c["reply"]; !isReply {
+						cs = append(cs, c)
+					}
+				}
+				calls = nil
+				mu.Unlock()
+				if cs == nil {
+					cs = []J{}
+				}
+				tr.emit(J{"op": st.op, "a": a, "r": r, "now": 0, "st": emptyState(cs), "alive": p.alive()})
+			}
+			for _, h := range conns {
+				h.ws.c.Close()
+			}
+			p.stop()
+		}
+	}
+	tr.close()
+	ioutil.WriteFile(statusFile, []byte("OK\n"), 0644)
+}
